@@ -594,6 +594,7 @@ pub fn run(id: &str, tier: Tier) -> i32 {
         );
     }
     let mut printed: BTreeSet<String> = BTreeSet::new();
+    stats.viol_examples.sort_by(|a, b| (a.sig.as_str(), key_order(&a.key)).cmp(&(b.sig.as_str(), key_order(&b.key))));
     for v in &stats.viol_examples {
         if !printed.insert(v.sig.clone()) || printed.len() > 25 {
             continue;
